@@ -10,13 +10,24 @@
 #include <stdlib.h>
 #include <orc/orcinternal.h>
 
+#ifdef C10_MODE
+const char *vprop_id = "C10";
+#elif defined(C03_MODE)
+const char *vprop_id = "C03";
+#else
 const char *vprop_id = "C01";
+#endif
 int vprop_fork = 1;
 int vprop_cpu_limit_s = 20;
 const char *vprop_class_names[V_NCLASS] = {
   "n_lt_8", "n_8_64", "n_gt_64", "two_d", "accumulator", "x2x4", "in_place", "temps_ge_3", "special_load",
   "misaligned", "const_n", "target_avx", "target_sse", "target_mmx", "reduced_flags", "single_opcode",
-  "var64", "exhaustive_pairs", "multi_insn_ge_5", "params", NULL
+  "var64", "exhaustive_pairs", "multi_insn_ge_5", "params",
+  #ifdef C03_MODE
+  "trailing_guard", "leading_guard", "unmapped_row_gaps", NULL
+#else
+  "saves_callee_regs", "sets_mxcsr", "uses_mmx_regs", NULL
+#endif
 };
 
 static const char *tnames[3] = { "avx", "sse", "mmx" };
@@ -31,7 +42,9 @@ void vprop_init (int argc, char **argv)
   for (i = 0; i < v_noptab; i++) {
     const VOp *op = &v_optab[i];
     if (op->flags & VOP_INVARIANT) continue;
+#ifndef C10_MODE
     if (op->flags & (VOP_FSRC | VOP_FDEST)) continue;
+#endif
     int_ops[n_int_ops++] = i;
   }
 }
@@ -99,6 +112,134 @@ size_t vprop_enum_stream (uint64_t idx, uint32_t *out, size_t max)
 
 static const int sys_n[] = { 0, 1, 2, 3, 5, 7, 8, 15, 16, 17, 31, 32, 33, 63, 64, 65, 67, 100 };
 
+#ifdef C10_MODE
+#include <sys/mman.h>
+/* C10: call through the trampoline with generated machine state and judge what the callee left behind */
+static uint32_t c10_seed;
+static int run_one (OrcProgram *p, ProgSpec *ps, RunCfg *rc, VResult *r, const char *tname)
+{
+  static const uint32_t mxcsrs[] = { 0x1f80, 0x3f80, 0x5f80, 0x7f80, 0x9f80, 0x1fc0, 0x9fc0, 0x1f80 | 0x8040 | 0x2000, 0x1f80 | 0x6000 | 0x0040 };   /* all exceptions masked: a trap is the caller's choice, not an ABI matter */
+  static const uint16_t fpucws[] = { 0x037f, 0x027f, 0x0f7f, 0x077f, 0x0b7f, 0x007f };
+  Arena an;
+  VTramp st;
+  OrcExecutor *ex;
+  unsigned char *page;
+  char msg[1024], sig[V_SIG_MAX];
+  int bad = 0, i;
+  uint64_t h = v_mix64 (c10_seed++ * 0x9e3779b97f4a7c15ULL + (uint64_t) rc->n);
+  if (arena_build (&an, ps, rc, 0)) { arena_free (&an); return 0; }
+  /* the executor ends flush against an inaccessible page; canaries in front of it */
+  page = (unsigned char *) mmap (NULL, 3 * 4096, PROT_READ | PROT_WRITE, MAP_PRIVATE | MAP_ANONYMOUS, -1, 0);
+  mprotect (page + 2 * 4096, 4096, PROT_NONE);
+  memset (page, 0xc7, 2 * 4096);
+  ex = (OrcExecutor *) (page + 2 * 4096 - sizeof (OrcExecutor));
+  exec_setup (ex, p, NULL, ps, rc, &an);
+  v_tramp_default (&st);
+  for (i = 0; i < 6; i++) st.seed_gpr[i] = v_mix64 (h + (uint64_t) i) | 1;
+  st.seed_mxcsr = mxcsrs[(h >> 8) % (sizeof mxcsrs / sizeof mxcsrs[0])];
+  st.seed_fpucw = fpucws[(h >> 16) % (sizeof fpucws / sizeof fpucws[0])];
+  v_stage (r, "run-native target=%s", tname);
+  v_tramp_call ((void (*) (void *)) p->code_exec, ex, &st);
+  v_stage (r, "judge machine state");
+  msg[0] = 0;
+  {
+    static const char *names[6] = { "rbx", "rbp", "r12", "r13", "r14", "r15" };
+    for (i = 0; i < 6 && !msg[0]; i++)
+      if (st.out_gpr[i] != st.seed_gpr[i]) { snprintf (msg, sizeof msg, "callee-saved register %s not preserved: 0x%llx on entry, 0x%llx on return", names[i], (unsigned long long) st.seed_gpr[i], (unsigned long long) st.out_gpr[i]); snprintf (sig, sizeof sig, "abi:callee-saved target=%s", tname); }
+  }
+  if (!msg[0] && st.rsp_after != st.rsp_before) { snprintf (msg, sizeof msg, "stack pointer changed by %lld bytes", (long long) (st.rsp_after - st.rsp_before)); snprintf (sig, sizeof sig, "abi:stack-pointer target=%s", tname); }
+  if (!msg[0] && st.canary_bad) { snprintf (msg, sizeof msg, "%llu words of the caller's stack frame were overwritten", (unsigned long long) st.canary_bad); snprintf (sig, sizeof sig, "abi:caller-stack target=%s", tname); }
+  if (!msg[0] && (st.out_mxcsr & 0xffc0) != (st.seed_mxcsr & 0xffc0)) { snprintf (msg, sizeof msg, "MXCSR control bits changed: 0x%04x on entry, 0x%04x on return (rounding/FTZ/DAZ/masks must be preserved)", st.seed_mxcsr & 0xffc0, st.out_mxcsr & 0xffc0); snprintf (sig, sizeof sig, "abi:mxcsr target=%s", tname); }
+  if (!msg[0] && st.out_fpucw != st.seed_fpucw) { snprintf (msg, sizeof msg, "x87 control word changed: 0x%04x -> 0x%04x", st.seed_fpucw, st.out_fpucw); snprintf (sig, sizeof sig, "abi:x87cw target=%s", tname); }
+  if (!msg[0] && st.out_fputag != 0xffff) { snprintf (msg, sizeof msg, "x87/MMX register stack not empty on return (tag word 0x%04x): missing emms", st.out_fputag); snprintf (sig, sizeof sig, "abi:x87-tags target=%s", tname); }
+  if (!msg[0] && (st.out_rflags & (1u << 10))) { snprintf (msg, sizeof msg, "direction flag set on return"); snprintf (sig, sizeof sig, "abi:direction-flag target=%s", tname); }
+  if (!msg[0]) {
+    size_t k;
+    for (k = 0; k < 2 * 4096 - sizeof (OrcExecutor); k++) if (page[k] != 0xc7) { snprintf (msg, sizeof msg, "memory %zu bytes before the executor structure was overwritten", 2 * 4096 - sizeof (OrcExecutor) - k); snprintf (sig, sizeof sig, "abi:stray-write target=%s", tname); break; }
+  }
+  if (!msg[0] && arena_check_untouched (&an, ps, rc, msg, sizeof msg)) snprintf (sig, sizeof sig, "abi:stray-write target=%s", tname);
+  if (msg[0]) {
+    v_fail (r, sig, "ABI violation: %s", msg);
+    v_desc (r, "# entry state: mxcsr=0x%04x fpucw=0x%04x\n", st.seed_mxcsr, st.seed_fpucw);
+    bad = 1;
+  }
+  if (p->asm_code) {
+    if (strstr (p->asm_code, "push %r1") || strstr (p->asm_code, "push %rbx")) r->classes |= 1u << 20;
+    if (strstr (p->asm_code, "ldmxcsr")) r->classes |= 1u << 21;
+    if (strstr (p->asm_code, "%mm")) r->classes |= 1u << 22;
+  }
+  munmap (page, 3 * 4096);
+  arena_free (&an);
+  return bad;
+}
+#elif defined(C03_MODE)
+#include <signal.h>
+#include <unistd.h>
+#include <ucontext.h>
+/* C03: arrays flush against inaccessible pages, sources read-only; a fault is reported with the array and the
+ * distance from the entitled range; native and emulation both run on guarded arenas and must agree */
+static Arena *c03_cur_arena;
+static VResult *c03_cur_result;
+static const char *c03_cur_path;
+static void c03_fault (int signo, siginfo_t *si, void *ctx)
+{
+  char where[400];
+  if (c03_cur_arena && c03_cur_result) {
+    int v = arena_find (c03_cur_arena, si->si_addr, where, sizeof where);
+    VResult *r = c03_cur_result;
+    r->verdict = V_FAIL;
+    /* page-fault error code bit 1 = the access was a write */
+    int is_write = (int) ((((ucontext_t *) ctx)->uc_mcontext.gregs[REG_ERR] >> 1) & 1);
+    snprintf (r->sig, V_SIG_MAX, "out-of-bounds-%s path=%s", is_write ? (v >= 0 && c03_cur_arena->a[v].kind == VK_SRC ? "write-to-source" : "write") : "read", c03_cur_path);
+    snprintf (r->msg, V_MSG_MAX, "%s faulted (signal %d) at %p: %s", c03_cur_path, signo, si->si_addr, where);
+  }
+  _exit (0);
+}
+static int run_one (OrcProgram *p, ProgSpec *ps, RunCfg *rc, VResult *r, const char *tname)
+{
+  Arena an, ae;
+  OrcExecutor exn, exe;
+  char msg[1024];
+  int bad = 0;
+  struct sigaction sa;
+  memset (&sa, 0, sizeof sa);
+  sa.sa_sigaction = c03_fault; sa.sa_flags = SA_SIGINFO;
+  sigaction (SIGSEGV, &sa, NULL); sigaction (SIGBUS, &sa, NULL);
+  if (arena_build (&an, ps, rc, 1) || arena_build (&ae, ps, rc, 1)) { arena_free (&an); arena_free (&ae); return 0; }
+  exec_setup (&exn, p, NULL, ps, rc, &an);
+  exec_setup (&exe, p, NULL, ps, rc, &ae);
+  rc_print (ps, rc, r);       /* before running: the description must survive a fault */
+  c03_cur_result = r;
+  c03_cur_arena = &an; c03_cur_path = tname;
+  v_stage (r, "run-native target=%s", tname);
+  v_shielded_call (p->code_exec, &exn);
+  c03_cur_arena = &ae; c03_cur_path = "emulation";
+  v_stage (r, "run-emulate");
+  orc_executor_emulate (&exe);
+  c03_cur_arena = NULL;
+  v_stage (r, "compare");
+  if (arena_check_untouched (&an, ps, rc, msg, sizeof msg)) {
+    char sig[V_SIG_MAX];
+    snprintf (sig, sizeof sig, "stray-write path=%s", tname);
+    v_fail (r, sig, "native code wrote outside destination elements 0..n-1: %s", msg);
+    bad = 1;
+  } else if (arena_check_untouched (&ae, ps, rc, msg, sizeof msg)) {
+    v_fail (r, "stray-write path=emulation", "emulation wrote outside destination elements 0..n-1: %s", msg);
+    bad = 1;
+  } else if (!ps->has_float && arena_compare (&an, &ae, ps, rc, &exn, &exe, msg, sizeof msg)) {
+    /* agreement is required so that "touch nothing" cannot be satisfied by skipping elements (float rounding is C18's) */
+    char sig[V_SIG_MAX];
+    snprintf (sig, sizeof sig, "mismatch%s target=%s", ps->ldres_shared ? "-special-load-shared-source" : "", tname);
+    v_fail (r, sig, "native != emulation on the guarded arena: %s", msg);
+    bad = 1;
+  }
+  if (rc->placement == PLACE_TRAIL) r->classes |= 1u << 20;
+  if (rc->placement == PLACE_LEAD) r->classes |= 1u << 21;
+  if (rc->gap_unmapped) r->classes |= 1u << 22;
+  arena_free (&an); arena_free (&ae);
+  return bad;
+}
+#else
 static int run_one (OrcProgram *p, ProgSpec *ps, RunCfg *rc, VResult *r, const char *tname)
 {
   Arena an, ae;
@@ -132,6 +273,8 @@ static int run_one (OrcProgram *p, ProgSpec *ps, RunCfg *rc, VResult *r, const c
   return bad;
 }
 
+#endif
+
 void vprop_case (VChoices *c, VResult *r)
 {
   static ProgSpec ps;
@@ -146,7 +289,11 @@ void vprop_case (VChoices *c, VResult *r)
   uint64_t h;
 
   gen_opts_default (&go);
+#ifdef C10_MODE
+  go.allow_float = 1;
+#else
   go.allow_float = 0;
+#endif
   single = vc_pick (c, 2) == 1;
   if (single) {
     go.single_opcode = int_ops[vc_pick (c, (uint32_t) n_int_ops)];
@@ -196,7 +343,11 @@ void vprop_case (VChoices *c, VResult *r)
   }
 
   memset (&ro, 0, sizeof ro);
+#ifdef C03_MODE
+  ro.n_max = 100; ro.m_max = 4; ro.big_n = 0; ro.placement_mask = 6;
+#else
   ro.n_max = 200; ro.m_max = 5; ro.big_n = 4000; ro.placement_mask = 1;
+#endif
   nruns = systematic ? (int) (sizeof sys_n / sizeof sys_n[0]) : 4 + (int) vc_pick (c, 12);
   for (i = 0; i < nruns; i++) {
     ro.exhaustive_pairs = 0;
@@ -211,10 +362,18 @@ void vprop_case (VChoices *c, VResult *r)
     if (rc.n > 0 && rc.m > 0) {
       if (rc.n < 8) r->classes |= 1u << 0; else if (rc.n <= 64) r->classes |= 1u << 1; else r->classes |= 1u << 2;
     }
+#ifdef C03_MODE
+    if (run_one (p, &ps, &rc, r, tnames[t])) break;
+#else
     if (run_one (p, &ps, &rc, r, tnames[t])) { rc_print (&ps, &rc, r); break; }
+#endif
   }
   /* exhaustive operand pairs for 8-bit (and 16-bit unary) single-opcode programs */
+#if defined(C10_MODE) || defined(C03_MODE)
+  if (0) {
+#else
   if (r->verdict != V_FAIL && single && systematic && !ps.const_n) {
+#endif
     const VOp *op = ps.ins[0].op;
     int narrow = op->ssz[0] == 1 && (op->ssz[1] == 0 || op->ssz[1] == 1) && !ps.has_special_load;
     int unary16 = op->ssz[0] == 2 && op->ssz[1] == 0;
